@@ -133,13 +133,25 @@ func runC16(rc *sim.RunCtx) {
 	rc.Scenario("T1 applied with timeout %ds", T)
 
 	kinds := []string{"confirm:T1", "cancel:T1", "confirm:zz", "cancel:zz", "set:T2"}
+	kindW := []int{4, 4, 1, 1, 3}
+	// reuse: the competing TransactionSet carries the same transaction id string as T1 (ids are chosen by the client and may be
+	// reused once a transaction is resolved). It stays "T2" in the records; only Confirm(T1) and that Set race the timer then,
+	// because a Cancel of the shared id could not be attributed.
+	reuse := t.Bool(1, 4)
+	t2Wire := "T2"
+	if reuse {
+		kindW = []int{3, 0, 0, 0, 3}
+		t2Wire = "T1"
+		rc.Probe("id-reused")
+		rc.Scenario("the competing TransactionSet reuses the id of T1")
+	}
 	ntasks := 1 + t.Choose(3)
 	var ops []*c16op
 	inflight := map[*c16op]bool{}
 	panics := []string{}
 	t2Timeout := uint32(30)
 	for i := 0; i < ntasks; i++ {
-		k := kinds[t.Weighted([]int{4, 4, 1, 1, 3})]
+		k := kinds[t.Weighted(kindW)]
 		// start offset relative to the deadline: well before, just before, at, just after
 		off := []time.Duration{0, time.Duration(T)*time.Second - 250*time.Millisecond, time.Duration(T)*time.Second - 50*time.Millisecond,
 			time.Duration(T) * time.Second, time.Duration(T)*time.Second + 50*time.Millisecond}[t.Choose(5)]
@@ -170,7 +182,7 @@ func runC16(rc *sim.RunCtx) {
 			case "cancel":
 				_, err = w.Srv.TransactionCancel(w.Ctx, &sdcpb.TransactionCancelRequest{DatastoreName: world.DSName, TransactionId: op.ID})
 			case "set":
-				r := ExecTx(rc, w, mk("T2", "o2", "h2", t2Timeout), 3*time.Second)
+				r := ExecTx(rc, w, mk(t2Wire, "o2", "h2", t2Timeout), 3*time.Second)
 				err = r.Err
 				if err == nil && r.HasIntentErrors() {
 					err = fmt.Errorf("intent errors")
@@ -230,6 +242,33 @@ func runC16(rc *sim.RunCtx) {
 			t1Rollbacks++
 		case strings.HasPrefix(id, "T2"):
 			t2Rollbacks++
+		}
+	}
+	// with a reused id a Confirm that returned after the Set was invoked may have confirmed T2: such runs cannot be attributed
+	ambiguous := false
+	if reuse {
+		for _, o := range ops {
+			if o.Kind == "confirm" && o.OK {
+				for _, s2 := range ops {
+					if s2.Kind == "set" && s2.OK && o.Ret > s2.Call {
+						ambiguous = true
+					}
+				}
+			}
+		}
+		// more than one accepted Set under the same id cannot be told apart either
+		nset := 0
+		for _, o := range ops {
+			if o.Kind == "set" && o.OK {
+				nset++
+			}
+		}
+		if nset > 1 {
+			ambiguous = true
+		}
+		if ambiguous {
+			rc.Probe("id-reused-ambiguous")
+			return
 		}
 	}
 	sig := []string{}
@@ -300,7 +339,7 @@ func runC16(rc *sim.RunCtx) {
 	}
 	if setOp != nil && t2Rollbacks == 0 {
 		// T2 was accepted and has not expired: it must still be confirmable
-		_, err := w.Srv.TransactionConfirm(w.Ctx, &sdcpb.TransactionConfirmRequest{DatastoreName: world.DSName, TransactionId: "T2"})
+		_, err := w.Srv.TransactionConfirm(w.Ctx, &sdcpb.TransactionConfirmRequest{DatastoreName: world.DSName, TransactionId: t2Wire})
 		if err != nil {
 			rc.Report(sim.Item{Prop: "C16", Clause: "C16.t2-unregistered", Fields: f, Detail: fmt.Sprintf("T2 was accepted but is no longer the open transaction (%s): T1's late rollback cleared the slot", normErr(err))})
 		}
